@@ -41,6 +41,14 @@ class KModel(PlainModel):
             # the public dispatch targets stay symbolic (K-DISPATCH reads them); private helpers are expanded
             if fi is not None and f[2] not in ('encode', 'encrypt', 'decode', 'decrypt', '__call__', 'dumps', 'loads'):
                 return self.engine.inline(fi.node, '%s.%s' % (fi.cls.name, f[2]), {}, args, kws, st, node, self_val=SELF)
+        # a class-qualified call of a private helper on self: hashmap._hash(self, key)
+        if f[0] == 'lib' and self.engine is not None and args and args[0] == SELF:
+            parts = f[1].split('.')
+            if len(parts) >= 2 and parts[-1] not in ('encode', 'encrypt', 'decode', 'decrypt', '__call__', 'dumps', 'loads', '__init__'):
+                for ci in self.module.classes_by_name.get(parts[-2], []):
+                    fi = ci.methods.get(parts[-1])
+                    if fi is not None:
+                        return self.engine.inline(fi.node, '%s.%s' % (ci.name, parts[-1]), {}, args[1:], kws, st, node, self_val=SELF)
         return PlainModel.call(self, f, args, kws, st, node)
 
 
